@@ -576,11 +576,15 @@ static int index_or_rindex (hawk_rtx_t* rtx, int rindex)
 			hawk_bch_t* str0, * str1, * ptr;
 			hawk_oow_t len0, len1;
 
-			str0 = ((hawk_val_mbs_t*)a0)->val.ptr;
-			len0 = ((hawk_val_mbs_t*)a0)->val.len;
+			str0 = hawk_rtx_getvalbcstr(rtx, a0, &len0);
+			if (HAWK_UNLIKELY(!str0)) return -1;
 
 			str1 = hawk_rtx_getvalbcstr(rtx, a1, &len1);
-			if (HAWK_UNLIKELY(!str0)) return -1;
+			if (HAWK_UNLIKELY(!str1))
+			{
+				hawk_rtx_freevalbcstr (rtx, a0, str0);
+				return -1;
+			}
 
 			if (nargs < 3)
 			{
@@ -610,6 +614,7 @@ static int index_or_rindex (hawk_rtx_t* rtx, int rindex)
 			idx = (ptr? ((hawk_int_t)(ptr - str0) + 1): 0);
 
 			hawk_rtx_freevalbcstr (rtx, a1, str1);
+			hawk_rtx_freevalbcstr (rtx, a0, str0);
 			break;
 		}
 
